@@ -1110,7 +1110,13 @@ static size_t ares_calc_query_timeout(const ares_query_t   *query,
    * retry from the last retry */
   rounds = (query->try_count / num_servers);
   if (rounds > 0) {
-    timeplus <<= rounds;
+    /* Double once per round, but saturate: shifting by the width of the type
+     * or more (ARES_OPT_TRIES >= 64 with a silent server) is undefined
+     * behavior, and the value must not wrap around either. */
+    size_t i;
+    for (i = 0; i < rounds && timeplus != 0 && timeplus <= SIZE_MAX / 2; i++) {
+      timeplus *= 2;
+    }
   }
 
   if (channel->maxtimeout && timeplus > channel->maxtimeout) {
